@@ -57,7 +57,7 @@ def check(ctx: Ctx) -> None:
     repo = ctx.repo
     ctx.decides = ("request tags and structure-message kinds agree between sender and receiver; (mode, mtime, size), the link triple and the "
                    "(relcomponents, checksum) request keep their roles on both sides; a regular file's chmod receives the transmitted mode unmodified; "
-                   "relpath() is applied only to absolute link targets; deletion is guarded by the delete option; the regular-file decision table; "
+                   "relpath() is applied only to absolute link targets and `outside the tree` is decided component-wise; a target that requested no file is still counted done;  deletion is guarded by the delete option; the regular-file decision table; "
                    "mode and mtime are applied to every listed file after the content step; each target gets the complete link list.  Decided over "
                    "value terms along all feasible CFG paths (helpers inlined).")
     ctx.not_decided = "file-system outcomes over generated trees and prior target states."
